@@ -8,7 +8,7 @@ from .c05 import env_of
 
 PLAN = {
     "quick": {"shards": 8, "cases": 600, "min_nontrivial": 2500, "budget_s": 300},
-    "thorough": {"shards": 16, "cases": 4000, "min_nontrivial": 20000, "budget_s": 1500},
+    "thorough": {"shards": 16, "cases": 8000, "min_nontrivial": 44800, "budget_s": 1500},
 }
 RULE = ("C01's schemas and reachable states (a valid prefix history), then failing operations of the listed kinds: "
         "attribute / dotted-path / constructor-keyword assignment of rejected values, a map (invalid at depth 1-3) or "
